@@ -47,7 +47,11 @@ func init() {
 var c15Ops = append(append([]string{}, histOps...), "insertidentical1", "insertidentical1", "graft", "merge", "insertidentical", "removesingle", "subtree", "clone", "graft", "insertidentical", "removesingle", "reroot")
 
 // snapshot of everything observable through the API
-func snapshot(t *tree.Tree) string {
+func snapshot(t *tree.Tree) string { return snapshotOf(t, true) }
+
+// snapshotOf: withIndex adds the derived data (bitsets, tip counts, hash codes) — used to see that the untouched party does not
+// change; the comparison of a clone with its source leaves them out (a copy that recomputes them later is still an exact copy).
+func snapshotOf(t *tree.Tree, withIndex bool) string {
 	var b strings.Builder
 	var rec func(n, p *tree.Node)
 	rec = func(n, p *tree.Node) {
@@ -58,7 +62,7 @@ func snapshot(t *tree.Tree) string {
 			}
 			e := n.Edges()[i]
 			fmt.Fprintf(&b, " <l=%v s=%v p=%v c=%q", e.Length(), e.Support(), e.PValue(), e.Comments())
-			if bs := e.Bitset(); bs != nil {
+			if bs := e.Bitset(); bs != nil && withIndex {
 				fmt.Fprintf(&b, " bits=%s %d/%d h=%d", bs.String(), e.NumTipsLeft(), e.NumTipsRight(), e.HashCode())
 			}
 			b.WriteString(">")
@@ -219,7 +223,7 @@ func execC15(t *testing.T, cc any, o *Outcome) {
 		cp = orig.Clone()
 		if a, b := cp.Newick(), orig.Newick(); a != b {
 			o.Fail("clone:text", "the clone's text differs from the original's\n  original %s\n  clone    %s", b, a)
-		} else if a, b := snapshot(cp), snapshot(orig); a != b {
+		} else if a, b := snapshotOf(cp, false), snapshotOf(orig, false); a != b {
 			o.Fail("clone:snapshot", "the clone differs from the original through the API\n  original %s\n  clone    %s", b, a)
 		}
 	})
